@@ -133,11 +133,21 @@ func (w *fv) walk(n ast.Node, sc *scope) {
 				w.free[id.Name+"."+m.Sel.Name] = true // method expression T.m (resolved only if such a method is declared)
 			}
 			return false
-		case *ast.KeyValueExpr:
-			if _, ok := m.Key.(*ast.Ident); !ok {
-				w.walk(m.Key, sc)
+		case *ast.CompositeLit:
+			// identifier keys: a FIELD NAME in a struct literal (not a reference), an EXPRESSION in a map / array / slice
+			// literal (a reference).  go/types decides (keys.go); never the syntactic shape of the key alone.
+			w.walk(m.Type, sc)
+			for _, el := range m.Elts {
+				kv, ok := el.(*ast.KeyValueExpr)
+				if !ok {
+					w.walk(el, sc)
+					continue
+				}
+				if id, isId := kv.Key.(*ast.Ident); !isId || !curKeys.isFieldKey(m, id) {
+					w.walk(kv.Key, sc)
+				}
+				w.walk(kv.Value, sc)
 			}
-			w.walk(m.Value, sc)
 			return false
 		case *ast.FuncLit:
 			inner := newScope(sc)
@@ -299,6 +309,7 @@ func recvBase(e ast.Expr) string {
 }
 
 func analyse(nodes []ast.Node) []topItem {
+	curKeys = classifyKeys(nodes)
 	var top []topItem
 	for _, n := range nodes {
 		switch classOf(n) {
